@@ -122,6 +122,16 @@ func runHarness(spec *HarnessSpec, tier string, budget time.Duration) (*harnessR
 	}
 	e.opaqueErrT = makeOpaqueErrType()
 	e.globalInit = globalInit
+	if len(spec.Redirects) > 0 {
+		e.redirects = map[string]*ssa.Function{}
+		for from, to := range spec.Redirects {
+			fn := mainPkg.Func(to)
+			if fn == nil {
+				return nil, fmt.Errorf("redirect target %s not found in %s", to, mainPkg.Pkg.Path())
+			}
+			e.redirects[from] = fn
+		}
+	}
 	entry := mainPkg.Func("vrtHarness_" + spec.Name)
 	if entry == nil {
 		return nil, fmt.Errorf("harness function vrtHarness_%s not found in %s", spec.Name, mainPkg.Pkg.Path())
